@@ -98,6 +98,11 @@ Section C04.
       assert (Hrun : forall mm, (mm = Run \/ mm = Force \/ mm = Dry) -> m = mm ->
                 run_task matchb H Hx v t0 s mm tid t oc = (s', x) -> ok = true /\ Inv04 p s' g').
       { intros mm Hmm -> Er.
+        change (run_task matchb H Hx v t0 s mm tid t oc)
+          with (run_task_core matchb H Hx v t0 (pre_state mm t0 t s) mm tid t oc) in Er.
+        cbn [fst] in Ec. change (deps_fs mm t0 t (fs s)) with (fs (pre_state mm t0 t s)) in Ec.
+        assert (Hinv0 : Inv04 p (pre_state mm t0 t s) g) by (eapply inv04_same_store; [apply same_store_pre | exact Hinv]).
+        clear Hinv. set (s0 := pre_state mm t0 t s) in *.
         pose proof (run_task_summary matchb H Hx v Hsafe Hfp Hts Hdfg _ _ _ _ _ _ _ _ Hsrc Hm Hmm Er) as Sm.
         destruct Sm as [Hnf Hup -> ->|Hd Hup Hss Hrd|Hnd Hup Hr Hnone Hoth|Hnd Hup -> Hrec Hoth].
         - (* skipped: justified by the record *)
@@ -106,7 +111,7 @@ Section C04.
           rewrite Hat in Ec.
           unfold up_formula in Hup. apply andb_true_iff in Hup. destruct Hup as [_ Hup].
           apply andb_true_iff in Hup. destruct Hup as [Hrec Hgen].
-          apply str_eq_opt_true in Hrec. destruct (Hinv _ _ _ Hn Hrec) as [fp0 [Ed Hl]].
+          apply str_eq_opt_true in Hrec. destruct (Hinv0 _ _ _ Hn Hrec) as [fp0 [Ed Hl]].
           apply Hinj in Ed. subst fp0. rewrite Hl, Hgen in Ec. inversion Ec; subst. auto.
         - subst mm. destruct Hrd as [-> | ->]; cbn in Ec; inversion Ec; subst; (split; [reflexivity | eapply inv04_same_store; eauto]).
         - assert (Hat : is_attempt mm x = true).
